@@ -162,6 +162,7 @@ func specRel(opts []layers.TCPOption, a int, o int, isn uint32) uint32 {
 // C20: the error class is decided by capability only — a failed dial and a SYN-ACK without SACK-permitted give
 // NotSupportedError; filter failures never do; errors of the handshake reader and of the engine keep their class.
 //@ func runSackTraceroute
+//@ ensures[ghost.mono]  sendN >= old(sendN)
 //@ safety C10 C20
 //@ requires[pre.ctx]          ctx != nil && sendN >= 0
 //@ ensures[C10.sack.atom]     ret1 != nil ==> ret0 == nil
@@ -176,6 +177,7 @@ func specRel(opts []layers.TCPOption, a int, o int, isn uint32) uint32 {
 //@ modifies *, ghost isOpen, ghost closeN, ghost clock, ghost sendN, ghost sendLog, ghost sendClock, ghost tcpDialed, ghost ioFail
 
 //@ func RunSackTraceroute
+//@ ensures[ghost.mono]  sendN >= old(sendN)
 //@ safety C10 C20
 //@ requires[pre.ctx]          ctx != nil && sendN >= 0
 //@ ensures[C10.entry.atom]    ret1 != nil ==> ret0 == nil
